@@ -2,7 +2,7 @@
 import opscheck
 import solvedrive
 
-CLAUSES = ["C12_Residual", "C12_History", "C12_HistoryPeriodic", "C12_Retry", "C12_Limits", "C12_FixedPoint", "C12_ExplicitStep", "C12_ExplicitBCs", "C12_InputUntouched",
+CLAUSES = ["C12_Residual", "C12_History", "C12_HistoryPeriodic", "C12_HistoryAlpha", "C12_Retry", "C12_Limits", "C12_FixedPoint", "C12_ExplicitStep", "C12_ExplicitBCs", "C12_InputUntouched",
            "C12_ExplicitUsable"]
 
 
